@@ -71,6 +71,9 @@ CONFIGS = {
                     shadow=['shuttle = "0.9.3"']),
     "dbg_serde_safe": dict(tlsh=BASE_FEATURES + ["serde", "serde-buffered", "strict-parser"], sim=["serde"],
                            profile={"opt-level": 2, "debug-assertions": "true", "overflow-checks": "true"}),
+    # ... and the debug profile with the LENIENT parser (round 10): values with impossible length codes / checksums exist only here
+    "dbg_serde_lenient": dict(tlsh=BASE_FEATURES + ["serde"], sim=["serde"],
+                              profile={"opt-level": 1, "debug-assertions": "true", "overflow-checks": "true"}),
     # serde without this crate's std/alloc features (what an embedded user builds), incl. serde-buffered
     "serde_noalloc": dict(tlsh=["easy-functions", "serde", "serde-buffered"], sim=["serde", "nostd"]),
     # C16: the four serde feature sets
@@ -599,10 +602,15 @@ def c12_alloc_faults(ctx, vd, binary, scratch, quick):
     """Allocation failure as a fault of the stream/file helpers: one scenario per process (a refused allocation normally
     aborts).  Accepted outcomes: abort, the right result, an I/O error.  A *wrong* result is a violation."""
     cases = [(api, ms, skip) for api in (5, 0, 3, 6) for ms in (1 << 20, 1 << 16, 4096, 1) for skip in ((0, 1) if quick else (0, 1, 2, 3))]
+    # a legal but unusual allocator (round 10): nothing is refused (min-size 2^60), byte buffers sit at addresses 1 mod 16;
+    # one stream shorter and one longer than the helper's buffer
+    cases += [(api, 1 << 60, sk) for api in (5, 1, 4, 6) for sk in (0, 1)]
     t = time.time()
     def one(c):
         api, ms, skip = c
         args = ["c12alloc", "--api", api, "--min-size", ms, "--skip", skip, "--len", 300_000 + vd.seed % 1000, "--seed", vd.seed, "--dir", scratch]
+        if ms == 1 << 60:
+            args = ["c12alloc", "--api", api, "--min-size", ms, "--skip", 0, "--len", (300_000 if skip == 0 else 2_500_000) + vd.seed % 1000, "--seed", vd.seed, "--dir", scratch, "--skew"]
         code, rep, err = run_sim(ctx, binary, args, allow_abort=True, timeout=600)
         return c, code, rep, err
     with ThreadPoolExecutor(max_workers=8) as ex:
@@ -611,6 +619,11 @@ def c12_alloc_faults(ctx, vd, binary, scratch, quick):
     for (api, ms, skip), code, rep, err in res:
         if code in (0, 1) and rep:
             vd.add("alloc_default", rep)
+        elif ms == 1 << 60:
+            # nothing was refused, so nothing entitles the process to die: a crash under a legal allocator is a violation
+            vd.add_violation("alloc_default", "c12alloc", {"class": "process-died-under-skewed-allocator", "index": api * 2 + skip, "engine": "native-abort",
+                                                            "detail": "c12alloc --skew (api %s) exited with %s: %s" % (api, code, err[-300:]),
+                                                            "history": {"api": api, "skew": True}, "argv": ["c12alloc", "--api", str(api), "--skew"]})
         elif "memory allocation of" in err or code in (134, -6):
             aborted += 1
         else:
@@ -642,10 +655,14 @@ def check_C12(ctx, tier, seed):
         big_jobs.append(side.submit(lambda: run_or_death(ctx, b, ["hashfile-big", "--dir", scratch, "--variant", (seed + 2) % 5, "--total", 4224281216])))
     # a process that dies (stack exhaustion on the small-stack threads, an abort) is a violation, not a harness error
     sim_batch_procs(ctx, vd, "default", b, "c12", n, abort_engine="native-abort")
-    extra_bins = build_many(ctx, ["lowmem", "rel_unsafe"])
+    extra_bins = build_many(ctx, ["lowmem", "rel_unsafe", "m_plain", "m_static_avx2", "m_native"])
     lb = extra_bins["lowmem"]
     sim_batch_procs(ctx, vd, "lowmem", lb, "c12", n // 4, abort_engine="native-abort")
     sim_batch_procs(ctx, vd, "rel_unsafe", extra_bins["rel_unsafe"], "c12", n // 4, abort_engine="native-abort")
+    # configuration x scenario (round 10): the helper on a build with every optimisation off and on statically selected
+    # target features (cfg!(target_feature = ...) / target-cpu=native code paths exist only there)
+    for k in ("m_plain", "m_static_avx2", "m_native"):
+        sim_batch_procs(ctx, vd, k, extra_bins[k], "c12", n // 8, abort_engine="native-abort")
     for i in range(1 if tier == "quick" else 16):
         vd.add("default", run_or_death(ctx, b, ["hashfile", "--dir", scratch, "--seed", seed + i]))
         vd.add("lowmem", run_or_death(ctx, lb, ["hashfile", "--dir", os.path.join(scratch, "lowmem"), "--seed", seed + i]))
@@ -686,7 +703,7 @@ def check_C03(ctx, tier, seed):
     # different first-use orders (one per process), and each process is a deterministic function of its index range
     sim_batch_procs(ctx, vd, "default", b, "c03", n, abort_engine="native-abort")
     # the reduced-memory feature set (low-memory buckets, single tables, minimal hex tables): same histories, fewer of them
-    extra = ["lowmem", "rel_unsafe", "m_static_sse2", "m_static_sse41", "m_static_avx2"]
+    extra = ["lowmem", "rel_unsafe", "m_static_sse2", "m_static_sse41", "m_static_avx2", "m_plain"]
     extra_bins = build_many(ctx, extra)
     for k in extra:
         sim_batch_procs(ctx, vd, k, extra_bins[k], "c03", n // (4 if k in ("lowmem", "rel_unsafe") else 8), abort_engine="native-abort")
@@ -1285,18 +1302,21 @@ def check_C16(ctx, tier, seed):
     db = build(ctx, "dbg_serde_safe")
     sim_batch(ctx, vd, "dbg_serde_safe", db, "c16", n // 4, abort_fallback=True)
     sim_batch(ctx, vd, "dbg_serde_safe", db, "c16mock", n // 4, abort_fallback=True)
+    dl = build(ctx, "dbg_serde_lenient")
+    sim_batch(ctx, vd, "dbg_serde_lenient", dl, "c16", n // 4, abort_fallback=True)
+    sim_batch(ctx, vd, "dbg_serde_lenient", dl, "c16mock", n // 4, abort_fallback=True)
     vd.extra["components_real"] = ["fast-tlsh Serialize/Deserialize impls and visitors (features serde, +strict-parser, +serde-buffered)",
                                    "serde_json 1.0.138, ciborium 0.2.2, postcard 1.1.1 (real crates)", "fast-tlsh parsers from_str_bytes / TryFrom<&[u8]> (oracle side, same build)"]
     vd.extra["components_stub"] = ["writer and reader (short I/O, EINTR, hard errors)", "the storage medium (torn tail, bit flips, substitution, garbage, duplicated prefix)",
                                    "recording layer between format crate and visitor", "scripted Byzantine Deserializer/Serializer (c16mock)"]
-    vd.extra["builds"] = SERDE_CONFIGS + ["dbg_serde_safe"]
+    vd.extra["builds"] = SERDE_CONFIGS + ["dbg_serde_safe", "dbg_serde_lenient"]
     vd.assumptions = ["the matching parser of the same build decides acceptance (the property relates the two entry points; parser correctness itself is C05/C15, not claimed)",
                       "(human-readable, bytes) and (compact, str) visitor events are 'may accept' (only the value is checked); every other non-matching event must be rejected"]
     return vd.finish()
 
 
 SETUP_CONFIGS = ["default", "hooked", "hooked_dbg", "shuttle"] + SERDE_CONFIGS + MATRIX_QUICK + ALLOC_CONFIGS + ["dbg", "dbg_unsafe", "rel_unsafe", "dbg_plain", "lowmem", "hooked_lowmem", "dbg_serde",
-                                                                                                               "dbg_embedded", "dbg_lowmem_simd", "dbg_bare", "dbg_sse41", "dbg_sse2", "rel_unsafe_lowmem", "dbg_serde_safe", "m_static_avx2", "dev0", "serde_noalloc", "alloc_sse41", "alloc_sse2",
+                                                                                                               "dbg_embedded", "dbg_lowmem_simd", "dbg_bare", "dbg_sse41", "dbg_sse2", "rel_unsafe_lowmem", "dbg_serde_safe", "dbg_serde_lenient", "m_static_avx2", "dev0", "serde_noalloc", "alloc_sse41", "alloc_sse2",
                                                                                                                "m_native", "m_v2_default"]
 
 CHECKS = {"C03": check_C03, "C07": check_C07, "C11": check_C11, "C12": check_C12, "C16": check_C16, "C17": check_C17, "C18": check_C18}
